@@ -63,7 +63,9 @@ func (mt *memtable) recover() int64 {
 
 	var walFiles []string
 	for _, file := range files {
-		if !file.IsDir() && path.Ext(file.Name()) == ".log" && wal.CompareVersion(wal.ParseVersion(file.Name()), mt.wal.Version()) < 0 {
+		// every wal file except the one just created belongs to a previous run,
+		// versions are not zero padded and can not be ordered by CompareVersion
+		if !file.IsDir() && path.Ext(file.Name()) == ".log" && wal.ParseVersion(file.Name()) != mt.wal.Version() {
 			walFiles = append(walFiles, path.Join(mt.dir, file.Name()))
 		}
 	}
